@@ -28,6 +28,9 @@
      ReadAt r off n        no state change
      CloseR r              reader.Close: done() / file.Close / fileCache.Add + done (+ Close if !added)
      Peek k                (observation only) read the file at the final path of k
+     CloseCache            directoryCache.Close: closed = true, os.RemoveAll(directory) (open descriptors keep their inodes);
+                           afterwards Add/Get/Commit report "cache is already closed"; lookups already past the check go on
+     The flag [mk] of Commit / PRename is the fault "os.MkdirAll of the key's directory fails" (chosen by the environment).
    Ops that violate the cache.Writer / cache.Reader protocol (Write/Commit/Abort on a writer that is not open,
    use of a closed reader, persist steps out of order) leave the state unchanged: they are outside the property's
    quantifier and are never sent to the implementation.
@@ -64,15 +67,16 @@ Record st := mkSt {
   fds : list (nat * bool);
   dir : list (nat * nat);
   writers : list writer;
-  readers : list reader }.
+  readers : list reader;
+  closed : bool }.
 
 Inductive op :=
 | Add (k : nat) (direct : bool) (pick : option nat)
 | Write (w : nat) (bs : bytes)
-| Commit (w : nat)
+| Commit (w : nat) (mk : bool)
 | PWrite (w : nat)
 | PFail (w n : nat)
-| PRename (w : nat)
+| PRename (w : nat) (mk : bool)
 | PDone (w : nat)
 | Abort (w : nat)
 | CloseW (w : nat)
@@ -82,22 +86,25 @@ Inductive op :=
 | GetOpen (k : nat) (direct : bool)
 | ReadAt (r off n : nat)
 | CloseR (r : nat)
-| Peek (k : nat).
+| Peek (k : nat)
+| CloseCache.
 
 Inductive out := ONone | OOk (b : bool) | OMiss | OHit | OData (d : bytes) | OErr.
 
 Definition init (dcap fcap : nat) : st :=
-  mkSt (R.init dcap) [] (R.init fcap) [] [] [] [] [] [] [].
+  mkSt (R.init dcap) [] (R.init fcap) [] [] [] [] [] [] [] false.
 
 (* ---- field updates ---- *)
-Definition set_dc (s : st) c dv := mkSt c dv (fc s) (fval s) (bufs s) (pool s) (fds s) (dir s) (writers s) (readers s).
-Definition set_fc (s : st) c fv := mkSt (dc s) (dval s) c fv (bufs s) (pool s) (fds s) (dir s) (writers s) (readers s).
-Definition set_bufs (s : st) b := mkSt (dc s) (dval s) (fc s) (fval s) b (pool s) (fds s) (dir s) (writers s) (readers s).
-Definition set_pool (s : st) p := mkSt (dc s) (dval s) (fc s) (fval s) (bufs s) p (fds s) (dir s) (writers s) (readers s).
-Definition set_fds (s : st) f := mkSt (dc s) (dval s) (fc s) (fval s) (bufs s) (pool s) f (dir s) (writers s) (readers s).
-Definition set_dir (s : st) d := mkSt (dc s) (dval s) (fc s) (fval s) (bufs s) (pool s) (fds s) d (writers s) (readers s).
-Definition set_writers (s : st) w := mkSt (dc s) (dval s) (fc s) (fval s) (bufs s) (pool s) (fds s) (dir s) w (readers s).
-Definition set_readers (s : st) r := mkSt (dc s) (dval s) (fc s) (fval s) (bufs s) (pool s) (fds s) (dir s) (writers s) r.
+Definition set_dc (s : st) c dv := mkSt c dv (fc s) (fval s) (bufs s) (pool s) (fds s) (dir s) (writers s) (readers s) (closed s).
+Definition set_fc (s : st) c fv := mkSt (dc s) (dval s) c fv (bufs s) (pool s) (fds s) (dir s) (writers s) (readers s) (closed s).
+Definition set_bufs (s : st) b := mkSt (dc s) (dval s) (fc s) (fval s) b (pool s) (fds s) (dir s) (writers s) (readers s) (closed s).
+Definition set_pool (s : st) p := mkSt (dc s) (dval s) (fc s) (fval s) (bufs s) p (fds s) (dir s) (writers s) (readers s) (closed s).
+Definition set_fds (s : st) f := mkSt (dc s) (dval s) (fc s) (fval s) (bufs s) (pool s) f (dir s) (writers s) (readers s) (closed s).
+Definition set_dir (s : st) d := mkSt (dc s) (dval s) (fc s) (fval s) (bufs s) (pool s) (fds s) d (writers s) (readers s) (closed s).
+Definition set_writers (s : st) w := mkSt (dc s) (dval s) (fc s) (fval s) (bufs s) (pool s) (fds s) (dir s) w (readers s) (closed s).
+Definition set_readers (s : st) r := mkSt (dc s) (dval s) (fc s) (fval s) (bufs s) (pool s) (fds s) (dir s) (writers s) r (closed s).
+
+Definition set_closed (s : st) c := mkSt (dc s) (dval s) (fc s) (fval s) (bufs s) (pool s) (fds s) (dir s) (writers s) (readers s) c.
 
 Definition set_w (s : st) (w : nat) (wr : writer) := set_writers s (R.upd (writers s) w wr).
 Definition add_writer (s : st) (wr : writer) := set_writers s (writers s ++ [wr]).
@@ -165,6 +172,7 @@ Definition take_buf (s : st) (pick : option nat) : st * nat * bool :=
   end.
 
 Definition do_add (s : st) (k : nat) (direct : bool) (pick : option nat) : st * out :=
+  if closed s then (s, OErr) else
   if direct then (add_writer s (mkW k None [] false [] WOpen PNone false), OOk true)
   else let '(s1, b, ok) := take_buf s pick in
        (add_writer s1 (mkW k (Some b) [] false [] WOpen PNone false), OOk ok).
@@ -184,12 +192,16 @@ Definition do_write (s : st) (w : nat) (bs : bytes) : st :=
 
 (* ---- Commit ---- *)
 (* (the writer record is marked first; the fields it touches are disjoint from those of the cache transition) *)
-Definition do_commit (s : st) (w : nat) : st :=
+Definition do_commit (s : st) (w : nat) (mk : bool) : st :=
   match nth_error (writers s) w with
   | Some wr =>
       if w_active wr then
+        if closed s then set_w s w (wr_status wr WAborted)   (* "cache is already closed": nothing is published *)
+        else
         match w_buf wr with
-        | None => set_w (set_dir s ((w_key wr, w) :: dir s)) w (wr_status (wr_renamed wr) WCommitted)
+        | None =>
+            if mk then set_w (set_dir s ((w_key wr, w) :: dir s)) w (wr_status (wr_renamed wr) WCommitted)
+            else set_w s w (wr_status wr WAborted)            (* MkdirAll failed: the wip file is removed *)
         | Some b =>
             let s0 := set_w s w (wr_status wr WCommitted) in
             let h := length (R.hs (dc s0)) in
@@ -229,11 +241,14 @@ Definition do_pfail (s : st) (w n : nat) : st :=
   | None => s
   end.
 
-Definition do_prename (s : st) (w : nat) : st :=
+Definition do_prename (s : st) (w : nat) (mk : bool) : st :=
   match nth_error (writers s) w with
   | Some wr =>
       match w_ps wr with
-      | PStage 1 h i => set_w (set_dir s ((w_key wr, w) :: dir s)) w (wr_ps (wr_renamed wr) (PStage 2 h i))
+      | PStage 1 h i =>
+          if mk && negb (closed s)
+          then set_w (set_dir s ((w_key wr, w) :: dir s)) w (wr_ps (wr_renamed wr) (PStage 2 h i))
+          else set_w s w (wr_ps wr (PStage 2 h i))   (* w.Commit() failed (closed cache / MkdirAll): no rename *)
       | _ => s
       end
   | None => s
@@ -304,6 +319,7 @@ Definition get_open (s : st) (k : nat) (direct : bool) : st * out :=
 Definition is_hit (o : out) : bool := match o with OHit => true | _ => false end.
 
 Definition do_get (s : st) (k : nat) (direct : bool) : st * out :=
+  if closed s then (s, OMiss) else
   if direct then get_open s k true
   else
     let r1 := get_mem s k in
@@ -368,10 +384,10 @@ Definition step (s : st) (o : op) : st * out :=
   match o with
   | Add k d p => do_add s k d p
   | Write w bs => (do_write s w bs, ONone)
-  | Commit w => (do_commit s w, ONone)
+  | Commit w mk => (do_commit s w mk, ONone)
   | PWrite w => (do_pwrite s w, ONone)
   | PFail w n => (do_pfail s w n, ONone)
-  | PRename w => (do_prename s w, ONone)
+  | PRename w mk => (do_prename s w mk, ONone)
   | PDone w => (do_pdone s w, ONone)
   | Abort w => (do_abort s w, ONone)
   | CloseW w => (do_closew s w, ONone)
@@ -382,6 +398,7 @@ Definition step (s : st) (o : op) : st * out :=
   | ReadAt r off n => (s, read s r off n)
   | CloseR r => (do_closer s r, ONone)
   | Peek k => (s, do_peek s k)
+  | CloseCache => (set_closed (set_dir s []) true, ONone)   (* closed = true; os.RemoveAll(directory) *)
   end.
 
 Definition exec (s : st) (os : list op) : st := fold_left (fun s o => fst (step s o)) os s.
@@ -426,7 +443,7 @@ Definition mstep (s : mst) (o : op) : mst * out :=
                    else (s, ONone)
       | None => (s, ONone)
       end
-  | Commit w =>
+  | Commit w _ =>
       match nth_error (m_ws s) w with
       | Some wr => if mw_active wr
                    then (mkMst ((mw_key wr, w) :: m_map s) (R.upd (m_ws s) w (mkMW (mw_key wr) (mw_buf wr) (mw_acc wr) WCommitted (mw_closed wr))) (m_rs s), ONone)
